@@ -21,7 +21,7 @@ HEADER = "From Coq Require Import PrimFloat.\nFrom Verif Require Import Spec.Pdd
 
 ADMISSIBLE_KINDS = ["fresh", "fresh-shuffled-dict", "swap", "permutation", "rotation", "chain", "overlap",
                     "partial-fresh", "identity", "library-style"]
-JUDGED_KINDS = ADMISSIBLE_KINDS + ["exhaustive", "corpus"]   # (hand-written cases carry one of the admissible kinds)
+JUDGED_KINDS = ADMISSIBLE_KINDS + ["exhaustive", "corpus", "alpha-pool"]   # (hand-written cases carry one of the admissible kinds)
 FOREIGN_KINDS = ["collapse", "capture", "capture-and-move", "onto-constant", "moves-constant", "onto-unrenamed"]
 
 
@@ -273,10 +273,12 @@ def uses_constant(w, a):
 
 
 def generate(rng, tier):
-    n_worlds = {"quick": 45, "thorough": 220}[tier]
+    n_worlds = {"quick": 40, "thorough": 200}[tier]
     cases = []
     for _ in range(n_worlds):
         w = G.gen_world(rng, max_actions=2)
+        if rng.random() < 0.35:
+            name_declarations_like_parameters(w)
         shadowed = {}
         if rng.random() < 0.6:
             for a in w.actions:
@@ -726,6 +728,294 @@ def quantified_constant(w, a):
     return any(w.is_sub(ct, t) for _, ct in w.consts for t in tys)
 
 
+
+# ---------------------------------------------------------------------------------------------- declarations named like parameters
+# The variables of the (:predicates ...) / (:functions ...) declarations carry names of their own (pddlgen: ?a0 ?a1); a
+# hand-written domain usually re-uses ONE name for the declaration and for the action parameter - (fuel ?v - vehicle) used
+# as (fuel ?v).  An application whose arguments are literally the declaration's variables is where an implementation can
+# be tempted to share the declared object with the action (zero-arity applications already do); a renaming in place then
+# shows (a) in the domain's declarations and in the other actions, (b) - with overlapping names - in the renamed action
+# itself, once per occurrence of the shared object (an even number of swaps is no swap).
+def name_declarations_like_parameters(w):
+    """?a<k> -> ?x<k> in every declaration (the action parameters of pddlgen are ?x0 ?x1 ...)"""
+    w.preds = [(n, [("?x" + v[2:], t) for v, t in ps]) for n, ps in w.preds]
+    w.funcs = [(n, [("?x" + v[2:], t) for v, t in ps]) for n, ps in w.funcs]
+    w.features.add("declarations-named-like-parameters")
+
+
+def tree_count(t, sub):
+    if t == sub:
+        return 1
+    return sum(tree_count(x, sub) for x in t) if isinstance(t, list) else 0
+
+
+def written_functions(eff):
+    out = set()
+
+    def walk(t):
+        if isinstance(t, list) and t:
+            if t[0] in NUM_EFFECT_HEADS and isinstance(t[1], list):
+                out.add(t[1][0])
+            for x in t:
+                walk(x)
+    walk(eff)
+    return out
+
+
+def alias_world(rng):
+    """a world whose declarations are written over the parameters of its actions: every declared predicate / function takes
+    some of the action parameters, under their own names, in the declaration's order"""
+    w = G.World()
+    G.gen_types(rng, w, max_types=3)
+    ts = w.all_types()
+    for i in range(rng.randint(0, 1)):
+        w.consts.append(("c%d" % i, rng.choice(ts)))
+    n = rng.choice([2, 2, 3])
+    params = [("?x%d" % k, rng.choice(ts)) for k in range(n)]
+    if rng.random() < 0.5:
+        params = [(p, params[0][1]) for p, _ in params]       # one type: every call shape is type-correct
+    def decl(prefix, i, arities):
+        ar = rng.choice(arities)
+        chosen = rng.sample(params, ar)
+        if rng.random() < 0.7:
+            chosen.sort()
+        return (prefix + str(i), [(p, rng.choice(w.ancestors(t))) for p, t in chosen])
+    for i in range(rng.randint(2, 3)):
+        w.preds.append(decl("p", i, [1, 1, 2]))
+    for i in range(rng.randint(1, 3)):
+        # (arity <= 1 as in pddlgen: a grounded fluent with a repeated object collapses in the library's name-keyed
+        #  dicts, D07 - not this property's business)
+        w.funcs.append(decl("f", i, [1, 1, 1, 0]))
+    w.features.add("declarations-named-like-parameters")
+    for k in range(rng.choice([1, 2, 2])):
+        a = {"name": "act%d" % k, "params": list(params), "group": rng.random() < 0.3,
+             "pre": as_conj(G.gen_precondition(rng, w, params)), "eff": G.gen_effect(rng, w, params)}
+        w.actions.append(a)
+    return w, params
+
+
+def plant_echoes(rng, w, a):
+    """further occurrences of the applications that are spelt exactly like their declaration - in the precondition, inside
+    a nested or, in a when-condition, on the right-hand side and as the target of a numeric effect - so that one action
+    holds the same application 1, 2, 3, 4 ... times"""
+    apps = [[f] + [p for p, _ in ps] for f, ps in w.funcs if ps]
+    papps = [[q] + [p for p, _ in ps] for q, ps in w.preds if ps]
+    rng.shuffle(apps)
+    nums = list(G.DOMAIN_NUMERALS)
+    written = written_functions(a["eff"])
+    pre = as_conj(a["pre"])
+    eff = as_conj(a["eff"])
+    for app in apps[:2]:
+        k = rng.randint(1, 4)
+        for place in [rng.choice(["pre", "pre-or", "when-cond", "write", "write-self", "forall-cond"]) for _ in range(k)]:
+            cmp_ = [rng.choice(CMP_HEADS), app, nums.pop(rng.randrange(len(nums)))] if nums else None
+            if place == "pre" and cmp_:
+                pre.append(cmp_)
+            elif place == "pre-or" and cmp_:
+                other = G.gen_atom(rng, w, list(a["params"]))
+                pre.append(["or", cmp_] + ([other] if other else []))
+            elif place == "when-cond" and cmp_:
+                lit = G.gen_atom(rng, w, list(a["params"]))
+                pol = polarity_table(eff)
+                if lit and pol.get(lit[0], {True}) == {True}:
+                    eff.append(["when", ["and", cmp_], ["and", lit]])
+            elif place == "forall-cond" and cmp_:
+                ty = rng.choice(w.all_types())
+                un = [q for q, ps in w.preds if len(ps) == 1 and w.is_sub(ty, ps[0][1])]
+                pol = polarity_table(eff)
+                un = [q for q in un if pol.get(q, {True}) == {True}]
+                if un:
+                    eff.append(["forall", ["?u7", "-", ty], ["when", ["and", cmp_], ["and", [rng.choice(un), "?u7"]]]])
+            elif place in ("write", "write-self") and app[0] not in written:
+                written.add(app[0])
+                rhs = rng.choice(G.DOMAIN_NUMERALS) if place == "write" else [rng.choice(["+", "*", "-"]), app, rng.choice(["1", "2", "0.5"])]
+                eff.append([rng.choice(NUM_EFFECT_HEADS), app, rhs])
+    for papp in papps[:1]:
+        pol = polarity_table(eff)
+        if rng.random() < 0.6 and not mentions(pre, {"__never__"}) and canon(papp) not in {canon(x) for x in pre[1:]} \
+                and canon(["not", papp]) not in {canon(x) for x in pre[1:]}:
+            pre.append(papp if rng.random() < 0.7 else ["not", papp])
+        if rng.random() < 0.5 and pol.get(papp[0], {True}) == {True} and canon(papp) not in {canon(x) for x in eff[1:]}:
+            eff.append(papp)
+    a["pre"], a["eff"] = pre, eff
+    return {json.dumps(app): tree_count([pre, eff], app) for app in apps[:2]}
+
+
+ALIAS_KINDS = ["swap", "swap", "rotation", "chain", "chain", "permutation", "overlap", "fresh", "library-style", "partial-fresh"]
+
+
+def alias_cases(rng, tier):
+    n_worlds = {"quick": 12, "thorough": 60}[tier]
+    cases = []
+    for _ in range(n_worlds):
+        w, params = alias_world(rng)
+        counts = {}
+        for a in w.actions:
+            counts[a["name"]] = plant_echoes(rng, w, a)
+        objs = [("o%d" % i, rng.choice([t for _, t in params] + w.all_types())) for i in range(rng.randint(2, 3))]
+        text = G.render(w.domain_tree("dom"), rng, noise=rng.random() < 0.2)
+        states = [G.gen_state(rng, w, objs, density=rng.choice([0.5, 0.8])) for _ in range(2)]
+        ptxts = [G.problem_text(w, objs, st, domain="dom") for st in states]
+        a = w.actions[0]
+        calls = G.calls_for(rng, w, objs, a, limit=40)
+        calls.sort(key=lambda c: -len(set(c)))
+        calls = calls[:3]
+        probes = [{"args": args, "state": st, "problem_text": pt} for st, pt in zip(states, ptxts) for args in calls]
+        occ = sorted(set(counts[a["name"]].values()))
+        feats = action_features(a) + (["constant"] if uses_constant(w, a) else []) + \
+            ["declared-application-occurs:%s" % ("even" if c % 2 == 0 else "odd") for c in occ if c] + \
+            (["other-action-shares-applications"] if len(w.actions) > 1 else [])
+        for kind in rng.sample(ALIAS_KINDS, 3):
+            m = make_mapping(rng, w, a, kind)
+            if m is None:
+                continue
+            cases.append({"domain_text": text, "objects": objs, "action": a["name"], "mapping": m, "kind": kind,
+                          "probes": probes, "features": sorted(w.features), "action_features": sorted(set(feats)),
+                          "nparams": len(a["params"]), "witness_of": None,
+                          "gen": {"params": [list(x) for x in a["params"]], "consts": [c for c, _ in w.consts],
+                                  "bound": sorted(bound_vars(a["pre"]) | bound_vars(a["eff"]))}})
+    return cases
+
+
+# ---------------------------------------------------------------------------------------------- names shaped like fresh names
+# Since eb5fde6 a quantifier whose variable ?v is the NEW name of some parameter renames itself to the first of ?v_0, ?v_1 ...
+# that is free.  The mappings here take their new names from a pool that holds the quantified variables of the action AND the
+# names of that shape (?v_0, ?v_1, ?v_0_0, ?v_00 ...), and the actions already carry such names: as a parameter, as the
+# variable of another (possibly nested) quantifier, inside the quantifier's body.
+def family(v):
+    return [v + "_0", v + "_1", v + "_2", v + "_0_0", v + "_00", v + "_10", v + "_0x"]
+
+
+def rename_everywhere(a, old, new):
+    a["params"] = [(new if p == old else p, t) for p, t in a["params"]]
+    a["pre"] = subst_tree(a["pre"], old, new)
+    a["eff"] = subst_tree(a["eff"], old, new)
+
+
+def nest_quantifier(rng, w, a, name):
+    """wrap one member of the body of a forall precondition into a further quantifier (named name)"""
+    done = []
+
+    def walk(t):
+        if not isinstance(t, list):
+            return t
+        if t and t[0] == "forall" and len(t) == 3 and isinstance(t[2], list) and t[2] and t[2][0] in ("and", "or") \
+                and len(t[2]) > 1 and not done and t[1][0] != name:
+            ty = rng.choice(w.all_types())
+            k = rng.randrange(1, len(t[2]))
+            inner = [t[2][k]]
+            extra = G.gen_atom(rng, w, [(name, ty), (t[1][0], t[1][2])] + list(a["params"]))
+            if extra and name in extra and extra != t[2][k]:
+                inner.append(extra if rng.random() < 0.7 else ["not", extra])
+            body = list(t[2])
+            body[k] = ["forall", [name, "-", ty], [rng.choice(["and", "or"])] + inner]
+            done.append(name)
+            return ["forall", list(t[1]), body]
+        return [walk(x) for x in t]
+    a["pre"] = walk(a["pre"])
+    return bool(done)
+
+
+def alpha_world(rng):
+    while True:
+        w = G.gen_world(rng, max_actions=1)
+        a = w.actions[0]
+        if not a["params"]:
+            continue
+        a["pre"] = as_conj(a["pre"])
+        if not bound_vars(a["pre"]) and w.types or rng.random() < 0.4:
+            # a forall precondition whose body mentions parameters
+            ty = rng.choice(w.all_types())
+            v = rng.choice(["?q2", "?v", "?x"])
+            if v in {p for p, _ in a["params"]} | bound_vars(a["eff"]) | bound_vars(a["pre"]):
+                v = "?q3"
+            scope = list(a["params"]) + [(v, ty)]
+            body = [x for x in (G.gen_form(rng, w, scope, 1, True, True) for _ in range(rng.randint(1, 3))) if x]
+            if body:
+                a["pre"].append(["forall", [v, "-", ty], [rng.choice(["and", "or"])] + body])
+                w.features.add("forall-pre")
+        if bound_vars(a["pre"]) | bound_vars(a["eff"]):
+            return w, a
+
+
+def alpha_cases(rng, tier):
+    n_worlds = {"quick": 18, "thorough": 90}[tier]
+    cases = []
+    for _ in range(n_worlds):
+        w, a = alpha_world(rng)
+        bound = sorted(bound_vars(a["pre"]) | bound_vars(a["eff"]))
+        v = rng.choice(bound)
+        fam = family(v)
+        shaped = []
+        # names of that shape already in the action: a parameter, another quantified variable, a nested quantifier
+        ps = [p for p, _ in a["params"]]
+        if rng.random() < 0.5:
+            p = rng.choice(ps)
+            new = rng.choice(fam)
+            rename_everywhere(a, p, new)
+            shaped.append("parameter")
+            fam_left = [x for x in fam if x != new]
+        else:
+            fam_left = list(fam)
+        others = [b for b in bound if b != v]
+        if others and rng.random() < 0.5:
+            b = rng.choice(others)
+            new = rng.choice(fam_left)
+            a["pre"], a["eff"] = subst_tree(a["pre"], b, new), subst_tree(a["eff"], b, new)
+            fam_left.remove(new)
+            shaped.append("other-quantifier")
+        if rng.random() < 0.4 and nest_quantifier(rng, w, a, rng.choice(fam_left[:3])):
+            shaped.append("nested-quantifier")
+        ps = [p for p, _ in a["params"]]
+        bound = sorted(bound_vars(a["pre"]) | bound_vars(a["eff"]))
+        consts = {c for c, _ in w.consts}
+        objs = G.gen_objects(rng, w)
+        text = G.render(w.domain_tree("dom"), rng, noise=rng.random() < 0.2)
+        states = [G.gen_state(rng, w, objs) for _ in range(2)]
+        ptxts = [G.problem_text(w, objs, st, domain="dom") for st in states]
+        calls = G.calls_for(rng, w, objs, a, limit=3)
+        probes = [{"args": args, "state": st, "problem_text": pt} for st, pt in zip(states, ptxts) for args in calls]
+        feats = action_features(a) + (["constant"] if uses_constant(w, a) else []) + \
+            ["fresh-shaped-name:" + x for x in shaped] + \
+            (["constant-of-quantified-type"] if quantified_constant(w, a) else [])
+        fresh = fresh_names(rng, 2, set(ps) | set(bound) | consts)
+        done = set()
+        for _ in range(3):
+            # new names: a quantified variable, then (mostly) the names the library would pick for it, in order
+            order = [p for p in ps]
+            rng.shuffle(order)
+            k = rng.randint(1, len(order))
+            movers = order[:k]
+            b = rng.choice(bound)
+            ladder = [b] + [x for x in family(b)[:2 if rng.random() < 0.7 else 1]]
+            pool = [x for x in bound + family(v) + fresh + ps if x not in ladder and x not in consts]
+            targets = []
+            for i, p in enumerate(movers):
+                if i < len(ladder) and rng.random() < 0.85:
+                    targets.append(ladder[i])
+                else:
+                    cand = [x for x in pool if x not in targets]
+                    targets.append(rng.choice(cand))
+            if len(set(targets)) < len(targets):
+                continue
+            rho = dict(zip(movers, targets))
+            if len({rho.get(p, p) for p in ps}) < len(ps):
+                continue                                       # two parameters under one name: not a renaming
+            m = [[p, rho[p]] for p in movers]
+            if all(o == nw for o, nw in m):
+                continue
+            if rng.random() < 0.5:
+                rng.shuffle(m)
+            key = json.dumps(m)
+            if key in done:
+                continue
+            done.add(key)
+            cases.append({"domain_text": text, "objects": objs, "action": a["name"], "mapping": m, "kind": "alpha-pool",
+                          "probes": probes, "features": sorted(w.features), "action_features": sorted(set(feats)),
+                          "nparams": len(ps), "witness_of": None})
+    return cases
+
+
 # ---------------------------------------------------------------------------------------------- shipped fixtures
 FIXTURE_PROBLEMS = {"models_tests/domain_miconic.pddl": "models_tests/miconic_pfile_1-0.pddl",
                     "models_tests/miconic_learned_domain.pddl": "models_tests/miconic_pfile_1-0.pddl",
@@ -864,15 +1154,18 @@ def case_literal(c, res, eps_hex):
             probes.append("{| q_args := %s; q_state := %s; q_app0 := %s; q_succ0 := %s; q_app1 := %s; q_succ1 := %s |}" % (
                 clist([cstr(a) for a in pr["args"]]), cstate(pr["state"]), cobs_bool(o["app"]), cobs_state(o["succ"]),
                 cobs_bool(n["app"]), cobs_state(n["succ"])))
+    r1 = res.get("rest1", {})
+    rest1 = "(Returned %s)" % cstr(r1["value"]) if "value" in r1 else "Raised"
     lit = ("{| r_text := %s; r_nums := %s; r_eps := %s; r_objs := %s; r_action := %s; r_map := %s; r_more := %s; r_sig := %s; "
-           "r_print0 := %s; r_print1 := %s; r_probes := %s |}") % (
+           "r_print0 := %s; r_print1 := %s; r_rest0 := %s; r_rest1 := %s; r_probes := %s |}") % (
         cstr(c["domain_text"]), nums, chex(float.fromhex(eps_hex)), objs, cstr(c["action"]), cpairs(c["mapping"]),
         clist([cpairs(m) for m in c.get("more", [])]), sig,
-        cstr(res.get("print0", "")), print1, clist(probes))
-    return lit, 2 + 2 * len(probes), len(probes)
+        cstr(res.get("print0", "")), print1, cstr(res.get("rest0", "")), rest1, clist(probes))
+    return lit, NU + 2 * len(probes), len(probes)
 
 
-UNIT_NAMES = ["signature", "text"]
+UNIT_NAMES = ["signature", "text", "isolation"]
+NU = len(UNIT_NAMES)
 
 
 def run(args):
@@ -887,6 +1180,8 @@ def run(args):
         fx, fx_skipped = fixture_cases(rng, args.tier)
         cases = corpus_cases() + handwritten_cases() + fx + generate(rng, args.tier) + exhaustive_cases(rng, {"quick": 2, "thorough": 30}[args.tier])
         cases += mirror_cases(rng, args.tier)
+        cases += alias_cases(rng, args.tier)
+        cases += alpha_cases(rng, args.tier)
         cases += sequence_cases(rng, cases, {"quick": 24, "thorough": 100}[args.tier])
     cfg = run_impl([{"op": "core.numeric_config"}], nproc=1)[0]
     hashseeds = [0] if args.tier == "quick" else [0, 1]
@@ -945,16 +1240,17 @@ def run(args):
             base = {"case": dict({k: c[k] for k in ("domain_text", "objects", "action", "mapping", "kind", "probes",
                                                     "features", "action_features")}, more=c.get("more", [])),
                     "hashseed": hs,
-                    "implementation": {k: res.get(k) for k in ("renamed", "sig", "print0", "print1", "same_object")}}
+                    "implementation": {k: res.get(k) for k in ("renamed", "sig", "print0", "print1", "rest0", "rest1",
+                                                               "same_object")}}
             for k, ch in enumerate(chunk):
-                unit = UNIT_NAMES[k] if k < 2 else ("applicability" if (k - 2) % 2 == 0 else "successor")
+                unit = UNIT_NAMES[k] if k < NU else ("applicability" if (k - NU) % 2 == 0 else "successor")
                 inp = dict(base, unit=unit)
-                if k >= 2:
-                    pi = (k - 2) // 2
+                if k >= NU:
+                    pi = (k - NU) // 2
                     inp["probe_index"] = pi
                     inp["probe_result"] = res["probes"][pi] if pi < len(res["probes"]) else None
                 nontrivial = moved > 0 and c["kind"].split(":")[-1] in JUDGED_KINDS and bool(c["action_features"] or c["features"]) \
-                    and (k < 2 or len(c["probes"][min((k - 2) // 2, len(c["probes"]) - 1)]["state"]["facts"]) > 0)
+                    and (k < NU or len(c["probes"][min((k - NU) // 2, len(c["probes"]) - 1)]["state"]["facts"]) > 0)
                 all_units.append({"lit": lit, "input": inp, "nontrivial": nontrivial, "witness_of": c.get("witness_of")})
             all_verdicts += chunk
             if hs == hashseeds[0]:
